@@ -110,6 +110,7 @@ class Cfg:
         self.kinds = {}         # element kind -> count (static)
         self.ignored = 0
         self.capped = False
+        self.ntrans = 0         # state-level transitions
 
 
 def static_check(fc, cfg: Cfg):
@@ -188,6 +189,8 @@ def explore(fc) -> Cfg:
     for i, e in enumerate(els):
         if isinstance(e, ForkHead):
             forks_by_uid.setdefault(e.fork_uid, []).append(i)
+    # only forks that some MergeHeads refers to need to be remembered on a path
+    merged_uids = {e.fork_uid for e in els if isinstance(e, MergeHeads)}
 
     pr = cfg.problems
     seen_sig = set()
@@ -232,6 +235,7 @@ def explore(fc) -> Cfg:
         def go(new, kind, C2=C, S2=S, K2=K, normal_end=True):
             if not edge(p, new, kind):
                 return
+            cfg.ntrans += 1
             if new == n and normal_end:
                 if S2:
                     problem(
@@ -269,7 +273,7 @@ def explore(fc) -> Cfg:
             else:
                 go(p + 1, "Goto_invalid_label")
         elif isinstance(e, ForkHead):
-            K2 = K | {e.fork_uid}
+            K2 = (K | {e.fork_uid}) if e.fork_uid in merged_uids else K
             for lb in e.labels:
                 if lb in labels:
                     go(labels[lb], "ForkHead", K2=K2)
